@@ -3,7 +3,7 @@ import sys
 
 from .. import engine, gen
 from ..core import Rng
-from .base import PropBase, gen_run
+from .base import PropBase, gen_run, gen_project_mode
 from .history import run_history, history_candidates, describe_history
 from ..engine import Outcome
 
@@ -24,16 +24,24 @@ class C18(PropBase):
     def generate(self, seed, tier, idx):
         rng = Rng(seed)
         focus = rng.chance(0.2)   # header-sharing projects with small edits: duplicate filters meet cache hits
-        if focus:
-            proj = gen.gen_project(rng, n_units=rng.randint(2, 3), inline=0.1, max_atoms=2, headers=1.0, wp=rng.chance(0.3), cfg_blocks=0.1)
+        supp = not focus and rng.chance(0.2)   # comment-only edits of inline suppressions with unmatchedSuppression reporting enabled
+        if supp:
+            proj = gen.gen_project(rng, n_units=rng.randint(1, 3), inline=0.3, max_atoms=3, headers=1.0, wp=rng.chance(0.2), hdr_inline=0.5)
+        elif focus:
+            proj = gen.gen_project(rng, n_units=rng.randint(2, 3), inline=0.1, max_atoms=2, headers=1.0, wp=rng.chance(0.3), cfg_blocks=0.1,
+                                   hdr_inline=0.2, computed_inc=0.2)
         else:
-            proj = gen.gen_project(rng, n_units=rng.randint(1, 5), inline=0.2, same_basename=0.15, max_atoms=4)
-        ekinds = ["token", "drop_include", "comment", "touch", "drop_include", "header", "inline_hdr"] if focus else None
+            proj = gen.gen_project(rng, n_units=rng.randint(1, 5), inline=0.2, same_basename=0.15, max_atoms=4, hdr_inline=0.15, computed_inc=0.15)
+        ekinds = ["token", "drop_include", "comment", "touch", "drop_include", "header", "inline_hdr"] if focus else gen.EDIT_KINDS + ["inline_hdr_nomatch"]
+        if supp:
+            ekinds = ["touch", "touch", "inline_nomatch", "inline_nomatch", "inline_remove", "inline_remove", "inline_add", "inline_hdr", "inline_hdr_nomatch", "comment", "token"]
         opts = {"--enable": rng.choice(["--enable=style,warning,performance,portability", "--enable=all", "--enable=style,information", ""])}
         if not opts["--enable"]:
             del opts["--enable"]
         if rng.chance(0.5):
             opts["--inline-suppr"] = "--inline-suppr"
+        if supp:
+            opts = {"--enable": rng.choice(["--enable=style,information", "--enable=information", "--enable=all"]), "--inline-suppr": "--inline-suppr"}
         tree, units, langs = proj["tree"], proj["units"], proj["langs"]
         hist = [{"run": gen_run(rng)}]
         cur_tree = dict(tree)
@@ -50,7 +58,9 @@ class C18(PropBase):
                         cur_tree[p] = c
                 hist.append({"edit": {"desc": desc, "set": sett, "units": list(units)}})
             hist.append({"run": gen_run(rng)})
-        return {"tree": tree, "units": proj["units"], "langs": proj["langs"], "opts": opts, "history": hist}
+        scn = {"tree": tree, "units": proj["units"], "langs": proj["langs"], "opts": opts, "history": hist}
+        scn["project"] = gen_project_mode(rng, proj["units"], 0.15)
+        return scn
 
     def execute(self, scn, wd):
         return run_history(scn, wd, Outcome(), self.ID)
